@@ -890,28 +890,10 @@ theorem hub_nested_reads_once_partial (srcs : Nat → Src K) (nsrc : Nat) (num d
       · exact Or.inr (a k' hm)
       · exact Or.inl (b k' hm)
 
-/-- non-vacuity, depth 2 (`g * p * q`: hubs 1 and 2 sit over products of copies of hub 0) -/
-def nestUp : Nat → It ℚ
-  | 0 => .src 0
-  | 1 => .br .mul (.tee 0 0 (.src 0)) 1
-  | _ => .br .mul (.tee 0 1 (.src 0)) 1
-def nestCs : List (HC ℚ) :=
-  [.s (.br .mul (.tee 1 0 (nestUp 1)) 1),
-   .s (.map2 .add (.br .mul (.tee 1 1 (nestUp 1)) 2) (.br .mul (.tee 2 0 (nestUp 2)) 1)),
-   .s (.br .mul (.tee 2 1 (nestUp 2)) 2)]
+/-- non-vacuity, depth 2 (`g * p * q`: hubs 1 and 2 sit over products of copies of hub 0; `nestUp`, `nestCs`,
+`nestLin` in `Lemmas/C06HubNest.lean`) -/
 example : callCoefs (.mul (.mul (.poly [((0 : Int), HC.s (It.src 0))]) (.poly [(0, HC.c (1 : Rat)), (1, HC.c 1)]))
       (.poly [(0, HC.c 1), (1, HC.c 2)])) (.poly [(0, HC.c 1)]) = nestCs := by decide +kernel
-theorem nestLin : Lin nestUp (fun g => g < 3) where
-  wf := by
-    intro g hg
-    have : g = 0 ∨ g = 1 ∨ g = 2 := by omega
-    rcases this with rfl | rfl | rfl <;> simp [nestUp, It.WF, It.Cons, It.groups, It.expo]
-  disj := by
-    intro g h hg hh hne τ
-    have e1 : g = 0 ∨ g = 1 ∨ g = 2 := by omega
-    have e2 : h = 0 ∨ h = 1 ∨ h = 2 := by omega
-    rcases e1 with rfl | rfl | rfl <;> rcases e2 with rfl | rfl | rfl <;>
-      simp [nestUp, It.expo] at hne ⊢ <;> intro e <;> simp [e]
 example (srcs : Nat → Src ℚ) (n : Nat) (st' : St ℚ) (h : roundsOk srcs nestCs n St.init st') :
     st'.pulls 0 = n :=
   (hub_nested_reads_once_rounds srcs nestUp (fun g => g < 3) nestLin nestCs
